@@ -243,7 +243,13 @@ def gen_cvt(rng):
     n = rng.choice([1, 2, 5, 16, 40])
     method = rng.choice(["kmeans", "random", "scrambled_sobol", "halton", "custom", "clustered", "dup", "lattice"])
     scale = rng.choice([1.0, 1.0, 1e-3, 1e6])
-    return {"kind": "cvt", "dtype": dt, "nd": nd, "n": n, "method": method, "scale": scale, "seed": rng.randrange(10**6),
+    # a measure space far from the origin relative to its size: squared norms of the centroids dwarf their spacing
+    # (any distance computation that does not subtract first loses the difference)
+    off = rng.choice([0, 0, 0, 1, 2]) * (100.0 if dt == "f32" else 5e5) * scale
+    if off:
+        n = rng.choice([16, 40, 64])
+    return {"kind": "cvt", "dtype": dt, "nd": nd, "n": n, "method": method, "scale": scale, "off": off,
+            "seed": rng.randrange(10**6),
             "ops": [[rng.random() for _ in range(nd)] + [rng.choice(["in", "in", "cent", "mid", "out"])]
                     for _ in range(rng.randint(6, 25))]}
 
@@ -254,7 +260,8 @@ def cvt_archives(case):
     dt, nd, n = case["dtype"], case["nd"], case["n"]
     s = case["scale"]
     r = random.Random(case["seed"])
-    ranges = [(-s, s)] * nd
+    off = case.get("off", 0.0)
+    ranges = [(off * (k + 1) - s, off * (k + 1) + s) for k in range(nd)]
     meth = case["method"]
     if meth in ("kmeans", "random", "scrambled_sobol", "halton"):
         first = CVTArchive(solution_dim=1, cells=n, ranges=ranges, centroid_method=meth, samples=max(200, 10 * n),
@@ -262,15 +269,15 @@ def cvt_archives(case):
         cents = np.array(first.centroids)
     else:
         if meth == "custom":
-            cents = np.array([[r.uniform(-s, s) for _ in range(nd)] for _ in range(n)])
+            cents = np.array([[off * (k + 1) + r.uniform(-s, s) for k in range(nd)] for _ in range(n)])
         elif meth == "clustered":
-            c0 = [r.uniform(-s, s) for _ in range(nd)]
+            c0 = [off * (k + 1) + r.uniform(-s, s) for k in range(nd)]
             cents = np.array([[c + r.uniform(-1, 1) * s * 1e-7 for c in c0] for _ in range(n)])
         elif meth == "dup":
-            base = [[r.uniform(-s, s) for _ in range(nd)] for _ in range(max(1, n // 2))]
+            base = [[off * (k + 1) + r.uniform(-s, s) for k in range(nd)] for _ in range(max(1, n // 2))]
             cents = np.array([base[r.randrange(len(base))] for _ in range(n)])
         else:
-            cents = np.array([[s * (r.randrange(-4, 5) / 4) for _ in range(nd)] for _ in range(n)])
+            cents = np.array([[off * (k + 1) + s * (r.randrange(-4, 5) / 4) for k in range(nd)] for _ in range(n)])
         cents = cents.astype(NP[dt])
     out = {}
     for name, kw in [("kd_tree", {"use_kd_tree": True}), ("brute", {"use_kd_tree": False}),
@@ -290,15 +297,16 @@ def run_cvt(case, drv):
     pts = []
     for op in case["ops"]:
         st = op[-1]
+        off = case.get("off", 0.0)
         if st == "in":
-            p = [(2 * t - 1) * s for t in op[:-1]]
+            p = [off * (k + 1) + (2 * t - 1) * s for k, t in enumerate(op[:-1])]
         elif st == "cent":
             p = [float(x) for x in rep[r.randrange(len(rep))]]
         elif st == "mid":
             a, b = rep[r.randrange(len(rep))], rep[r.randrange(len(rep))]
             p = [(float(x) + float(y)) / 2 for x, y in zip(a, b)]
         else:
-            p = [(2 * t - 1) * s * r.choice([3, 1e3, 1e9]) for t in op[:-1]]
+            p = [off * (k + 1) + (2 * t - 1) * s * r.choice([3, 1e3, 1e9]) for k, t in enumerate(op[:-1])]
         pts.append([float(NP[dt](x)) for x in p])
     arr = np.array(pts, dtype=NP[dt])
     tol = 16 * U[dt] * (case["nd"] + 2)
